@@ -163,6 +163,7 @@ DUMMY = (0, (), 0.0, ())
 class World:
     def __init__(self):
         self.H, self.E, self.T, self.K, self.A, self.L = [], [], [], [], [], []
+        self.TV = []         # Python lists of times owned by the caller
         self.Asrc = []       # emulsion each linked array came from (generator bookkeeping only)
 
     # -- execution -------------------------------------------------------------------
@@ -305,6 +306,28 @@ class World:
             L.append(DropletTrackList([K[k] for k in op[1]]))
         elif n == "TlRemoveShort":
             L[op[1]].remove_short_tracks(float(op[2]))
+        elif n == "TcCopy":
+            tc = EmulsionTimeCourse(T[op[1]])
+            T.append(tc)
+            E.extend(tc.emulsions)
+        elif n == "TcNewL":
+            ems = [E[c] for c in op[1]]
+            lst = self.TV[op[2]]
+            tc = EmulsionTimeCourse(ems, lst)       # the caller keeps its list
+            T.append(tc)
+            E.extend(tc.emulsions)
+        elif n == "TrCopy":
+            K.append(DropletTrack(K[op[1]]))
+        elif n == "TrNewL":
+            ds = [H[i] for i in op[1]]
+            lst = self.TV[op[2]]
+            K.append(DropletTrack(ds, lst))
+        elif n == "TlistNew":
+            self.TV.append([_num(t) for t in op[1]])
+        elif n == "TlistAppend":
+            self.TV[op[1]].append(_num(op[2]))
+        elif n == "TlistSet":
+            self.TV[op[1]][op[2]] = _num(op[3])
         else:
             raise RuntimeError("unknown op " + n)
         return None
@@ -338,6 +361,10 @@ class World:
         d["trs"] = [([Fraction(t) for t in k.times], [value_of(x) for x in k.droplets]) for k in K]
         d["arrs"] = [[_row_value(a[i]) for i in range(len(a))] for a in A]
         d["tls"] = [[_index_is(K, k) for k in l] for l in L]
+        d["tvars"] = [[Fraction(t) for t in lst] for lst in self.TV]
+        tlists = [tc.times for tc in T] + [k.times for k in K] + list(self.TV)
+        firstl = {}
+        d["tlsig"] = [firstl.setdefault(id(x), i) for i, x in enumerate(tlists)]
         pos = self.positions()
         first = {}
         d["objsig"] = [first.setdefault(id(x), i) for i, x in enumerate(pos)]
@@ -502,6 +529,20 @@ def oplit(op):
         return f"(OTlNew {nl(op[1])})"
     if n == "TlRemoveShort":
         return f"(OTlRemoveShort {op[1]} {q(op[2])})"
+    if n == "TcCopy":
+        return f"(OTcCopy {op[1]})"
+    if n == "TcNewL":
+        return f"(OTcNewL {nl(op[1])} {op[2]})"
+    if n == "TrCopy":
+        return f"(OTrCopy {op[1]})"
+    if n == "TrNewL":
+        return f"(OTrNewL {nl(op[1])} {op[2]})"
+    if n == "TlistNew":
+        return f"(OTlistNew {ql(op[1])})"
+    if n == "TlistAppend":
+        return f"(OTlistAppend {op[1]} {q(op[2])})"
+    if n == "TlistSet":
+        return f"(OTlistSet {op[1]} {op[2]} {q(op[3])})"
     raise RuntimeError(n)
 
 
@@ -520,25 +561,34 @@ ENTRY = {
     "trs": lambda x: f"({ql(x[0])},{_vs(x[1])})",
     "arrs": _vs,
     "tls": nl,
+    "tvars": ql,
 }
 TABLES = ["hnd", "ems", "tcs", "trs", "arrs", "tls"]
-EMPTY_DUMP = {"hnd": [], "ems": [], "tcs": [], "trs": [], "arrs": [], "tls": [], "objsig": [], "stosig": []}
+EMPTY_DUMP = {"hnd": [], "ems": [], "tcs": [], "trs": [], "arrs": [], "tls": [], "objsig": [], "stosig": [],
+              "tvars": [], "tlsig": []}
+
+
+def _tablit(t, xs):
+    return "[" + ";".join(ENTRY[t](x) for x in xs) + "]"
 
 
 def dumplit(d):
-    tabs = " ".join("[" + ";".join(ENTRY[t](x) for x in d[t]) + "]" for t in TABLES)
-    return f"(mkD {tabs} {nl(d['objsig'])} {nl(d['stosig'])})"
+    tabs = " ".join(_tablit(t, d[t]) for t in TABLES)
+    return (f"(mkD {tabs} {nl(d['objsig'])} {nl(d['stosig'])} {_tablit('tvars', d['tvars'])} "
+            f"{nl(d['tlsig'])})")
 
 
 def deltalit(prev, d):
     """delta of dump d against the previously transmitted dump prev (tables: new length + changed entries)"""
-    parts = []
-    for t in TABLES:
+    def tab(t):
         old, new = prev[t], d[t]
         ch = [(i, x) for i, x in enumerate(new) if i >= len(old) or old[i] != x]
-        parts.append(f"({len(new)},[" + ";".join(f"({i},{ENTRY[t](x)})" for i, x in ch) + "])")
-    for sname in ("objsig", "stosig"):
-        parts.append("None" if prev[sname] == d[sname] else f"(Some {nl(d[sname])})")
+        return f"({len(new)},[" + ";".join(f"({i},{ENTRY[t](x)})" for i, x in ch) + "])"
+
+    def sig(sname):
+        return "None" if prev[sname] == d[sname] else f"(Some {nl(d[sname])})"
+
+    parts = [tab(t) for t in TABLES] + [sig("objsig"), sig("stosig"), tab("tvars"), sig("tlsig")]
     return "(mkDD " + " ".join(parts) + ")"
 
 
@@ -585,8 +635,9 @@ VA = (0, (0.0, 0.0), 1.0, ())               # SphericalDroplet, 2d
 VB = (1, (1.0, 2.0), 2.0, (0.5,))           # DiffuseDroplet, 2d
 VC = (0, (3.0, 0.5), 1.5, ())               # SphericalDroplet, 2d
 PREFIX = [("New", VA), ("New", VB), ("New", VC), ("EmNew",), ("Append", 0, 0, True, False),
-          ("Append", 0, 2, True, False), ("TcNew", (0,), None), ("TrNew", (0,), None)]
-# after PREFIX: H = [A, B, C]; E[0] = [copy of A, copy of C] (dtype spherical 2d); T[0] = [E[1]]; K[0] = [copy of A]
+          ("Append", 0, 2, True, False), ("TlistNew", (2.0,)), ("TcNewL", (0,), 0), ("TrNewL", (0,), 0)]
+# after PREFIX: H = [A, B, C]; E[0] = [copy of A, copy of C] (dtype spherical 2d); TV[0] = [2.0] (caller's list);
+# T[0] = [E[1]] and K[0] = [copy of A], both constructed with times=TV[0]
 ALPHABET = [
     ("SetH", 0, 2, 3.0),                    # caller mutates its own droplet
     ("Append", 0, 0, True, False),          # default flags
@@ -604,8 +655,11 @@ ALPHABET = [
     ("Add", 0, 0),
     ("TcSlice", 0, 0, 2),
     ("TcAppendBad", 0),
+    ("TcCopy", 0),                          # copy constructor
+    ("TlistAppend", 0, 9.0),                # the caller mutates its own list of times
 ]
-ALPHABET_EXTRA = [("TrSlice", 0, 0, 2), ("TrAppendBad", 0), ("Get", 0, 1), ("RemoveOverlap", 0, ())]
+ALPHABET_EXTRA = [("TrSlice", 0, 0, 2), ("TrAppendBad", 0), ("Get", 0, 1), ("RemoveOverlap", 0, ()), ("TrCopy", 0),
+                  ("TlistSet", 0, 0, 4.0), ("TrAppend", 0, 0, None)]
 
 
 def dyadic(rng, lo, hi, k=2):
@@ -638,11 +692,13 @@ def random_value(rng, classes):
 
 OPNAMES = ["New", "View", "SetH", "EmNew", "Append", "Extend", "Get", "SetM", "Copy", "Slice", "Add", "RemoveSmall",
            "RemoveOverlap", "Link", "WriteA", "Merge", "TcNew", "TcAppend", "TcAppendBad", "TcSlice", "TcClear",
-           "TrNew", "TrAppend", "TrAppendBad", "TrSlice", "TrGet", "TlNew", "TlRemoveShort"]
+           "TrNew", "TrAppend", "TrAppendBad", "TrSlice", "TrGet", "TlNew", "TlRemoveShort",
+           "TcCopy", "TcNewL", "TrCopy", "TrNewL", "TlistNew", "TlistAppend", "TlistSet"]
 WEIGHTS = {"New": 5, "View": 1, "SetH": 4, "EmNew": 2, "Append": 8, "Extend": 3, "Get": 2, "SetM": 4, "Copy": 3,
            "Slice": 3, "Add": 2, "RemoveSmall": 2, "RemoveOverlap": 2, "Link": 3, "WriteA": 3, "Merge": 3, "TcNew": 2,
            "TcAppend": 4, "TcAppendBad": 1, "TcSlice": 2, "TcClear": 1, "TrNew": 2, "TrAppend": 4, "TrAppendBad": 1,
-           "TrSlice": 2, "TrGet": 1, "TlNew": 1, "TlRemoveShort": 1}
+           "TrSlice": 2, "TrGet": 1, "TlNew": 1, "TlRemoveShort": 1,
+           "TcCopy": 3, "TcNewL": 3, "TrCopy": 3, "TrNewL": 3, "TlistNew": 2, "TlistAppend": 3, "TlistSet": 2}
 MAXMEM = 7      # emulsions / tracks are kept small so that dumps stay small
 MAXTAB = 14
 
@@ -837,6 +893,45 @@ def _random_op_once(rng, w, classes, default_only, names, idx, flat_index):
             return ("TlNew", tuple(idx(K) for _ in range(rng.randrange(0, 4))))
         if n == "TlRemoveShort":
             return ("TlRemoveShort", idx(L), dyadic(rng, 0, 4, 1))
+        TV = w.TV
+        if n == "TcCopy":
+            t = idx(T)
+            if len(T) >= 6 or len(E) >= MAXTAB - 2:
+                return None
+            return ("TcCopy", t)
+        if n == "TcNewL":
+            if len(T) >= 6 or len(E) >= MAXTAB - 2:
+                return None
+            j = idx(TV)
+            want = len(TV[j]) if j < len(TV) and rng.random() < 0.85 else rng.randrange(0, 3)
+            if want > 3:
+                return None
+            return ("TcNewL", tuple(idx(E) for _ in range(want)), j)
+        if n == "TrCopy":
+            if len(K) >= 6:
+                return None
+            return ("TrCopy", idx(K))
+        if n == "TrNewL":
+            if len(K) >= 6:
+                return None
+            j = idx(TV)
+            want = len(TV[j]) if j < len(TV) and rng.random() < 0.85 else rng.randrange(0, 3)
+            if want > 4:
+                return None
+            return ("TrNewL", tuple(idx(H) for _ in range(want)), j)
+        if n == "TlistNew":
+            if len(TV) >= 4:
+                return None
+            return ("TlistNew", tuple(dyadic(rng, 0, 8, 1) for _ in range(rng.randrange(0, 4))))
+        if n == "TlistAppend":
+            j = idx(TV)
+            if j < len(TV) and len(TV[j]) >= 6:
+                return None
+            return ("TlistAppend", j, dyadic(rng, 0, 8, 1))
+        if n == "TlistSet":
+            j = idx(TV)
+            m = len(TV[j]) if j < len(TV) else 0
+            return ("TlistSet", j, idx(range(m)), dyadic(rng, 0, 8, 1))
     return None
 
 
